@@ -30,8 +30,8 @@ import vlib
 from vlib import Evidence, Verdicts, run_tlc, require_tlc_ok
 
 PID = "C04"
-QUICK_FAMILIES = ["d1ret", "d1par", "fm", "ladder", "ns"]
-THOROUGH_FAMILIES = ["allret", "allpar", "fm", "ladder", "ns"]
+QUICK_FAMILIES = ["d1ret", "d1par", "fm", "ladder", "ns", "mod"]
+THOROUGH_FAMILIES = ["allret", "allpar", "fm", "ladder", "ns", "mod"]
 REASONS = ["name", "arity", "param", "ret"]
 
 # ------------------------------------------------------------------ representation mapping
@@ -120,7 +120,28 @@ def item_leaves(item):
     return out
 
 
+def place_key(item):
+    return json.dumps(item.get("place"), sort_keys=True) if item.get("place") else ""
+
+
+def retrieval_name(declname, item):
+    """the name get_function is asked for: the module path of the declaring module + the declared name"""
+    pl = item.get("place")
+    return declname if not pl or pl["at"] == "pkg" else pl["at"] + "." + declname
+
+
 def script_groups(named_items):
+    """Items with a module placement: one script per placement (all items of the group live in module
+    `at` of that module tree).  Otherwise see script_groups_by_shadowing."""
+    if any(it.get("place") for _, it in named_items):
+        by = {}
+        for k, (_, it) in enumerate(named_items):
+            by.setdefault(place_key(it), []).append(k)
+        return [by[k] for k in sorted(by)]
+    return script_groups_by_shadowing(named_items)
+
+
+def script_groups_by_shadowing(named_items):
     """A root namesake shadows the built-in of that identifier in the whole root module, so an item that
     mentions pkg.<L> cannot live in a script that also mentions the built-in L (or uses it as the field
     type of a namesake declaration).  Items without root namesakes all go to group 0."""
@@ -249,8 +270,22 @@ def script_source(named_items):
     else:
         lines = ["record Rec { x: i32 }",
                  "fn helper_user(a: String, b: List[String], c: Rec) -> bool { let d = c; a == \"x\" && b == [a] && d.x == 1 }"]
-    for k, (name, item) in enumerate(named_items):
-        lines.append(item_source(item, name, k))
+    place = named_items[0][1].get("place") if named_items else None
+    decls = [item_source(item, name, k) for k, (name, item) in enumerate(named_items)]
+    if place:
+        # module tree: the items live in module `at`; a module of fmIn declares a filtermap of its own,
+        # every other module only a plain function (the root additionally the usual header)
+        def other(m):
+            tag = m.replace(".", "_")
+            if m in place["fmIn"]:
+                return ["filtermap other_%s() { if 1 == 1 { accept 1u8 } else { reject 2u8 } }" % tag]
+            return ["fn plain_%s() -> u8 { 0 }" % tag]
+        text = ""
+        for m in place["mods"]:
+            body = (lines if m == "pkg" else []) + (decls if m == place["at"] else other(m))
+            text += ("" if m == "pkg" else "//@module %s\n" % m) + "\n".join(body) + "\n"
+        return text
+    lines += decls
     text = "\n".join(lines) + "\n"
     if subs:
         # sub-module ns (harness: `//@module <name>`): u64 / i64 are always declared there because the
@@ -315,6 +350,20 @@ def write_sets(tag, sets):
     return path
 
 
+def unknown_paths(decl, item):
+    """an item declared in a sub-module is not known under its bare name, under another module's path, or
+    under a path that goes one module too deep / not deep enough"""
+    pl = item.get("place")
+    if not pl:
+        return []
+    out = ["zz." + decl, pl["at"] + ".zz." + decl]
+    for m in pl["mods"]:
+        cand = decl if m == "pkg" else m + "." + decl
+        if m != pl["at"]:
+            out.append(cand)
+    return out
+
+
 def unknown_names(name):
     """names the script certainly does not declare (declared names are <family>_<n> / g<n>)"""
     return [name + "_", "pkg." + name, name.upper(), "x" + name, "", " " + name, name + ".x", "nosuch"]
@@ -356,7 +405,8 @@ def cases_of_family(family, rows, universe):
         if key not in names:
             names[key] = "%s_%d" % (family, len(names))
             named_items.append((names[key], c["item"]))
-        name = names[key]
+        decl = names[key]
+        name = retrieval_name(decl, c["item"])
         ok_ids = sorted(sig_id(s) for s in c["ok"])
         nc = c["nameclass"]
         if nc == "declared":
@@ -364,13 +414,13 @@ def cases_of_family(family, rows, universe):
             if not c["item"]["params"]:
                 case["call"] = ok_ids
         elif nc == "unknown":
-            case = {"op": "names", "names": unknown_names(name), "set": family}
+            case = {"op": "names", "names": unknown_names(name) + unknown_paths(decl, c["item"]), "set": family}
         elif nc == "helper":
             case = {"op": "helper", "k": sum(1 for x in cases if x["op"] == "helper"), "set": family}
         else:
             raise vlib.ToolError("unknown name class " + nc)
         cases.append(case)
-        expected.append({"family": family, "item": c["item"], "sig": c["sig"], "nameclass": nc, "name": name,
+        expected.append({"family": family, "item": c["item"], "sig": c["sig"], "nameclass": nc, "name": name, "decl": decl,
                          "ok": ok_ids, "reasons": c["reasons"]})
     return named_items, cases, expected, uids
 
@@ -432,8 +482,8 @@ def probe_family(family):
         script, err = write_script(tag, items)
         if err:
             return (family, r, universe, uids, expected, cases, None, script, err)
-        sel = [k for k, e in enumerate(expected) if e["name"] in names]
-        res = vlib.run_batch("c04", [cases[k] for k in sel], extra=[script, sets], nproc=6, pid=PID, tag=tag, stall=120)
+        sel = [k for k, e in enumerate(expected) if e["decl"] in names]
+        res = vlib.run_batch("c04", [cases[k] for k in sel], extra=[script, sets], nproc=min(6, max(1, len(sel) // 30)), pid=PID, tag=tag, stall=120)
         for k, x in zip(sel, res):
             results[k] = x
     return (family, r, universe, uids, expected, cases, results, None, None)
@@ -464,6 +514,21 @@ def account_family(data, ev, verd, stats):
             for side in (exp["item"]["acc"], exp["item"]["rej"]):
                 f = side[0] if side[0] in ("unused", "bare", "intlit", "floatlit") else "typed"
                 stats["fm_sides"][f] = stats["fm_sides"].get(f, 0) + 1
+        if family == "mod" and exp["nameclass"] == "declared":
+            it, pl = exp["item"], exp["item"]["place"]
+            earlier = pl["mods"][:pl["mods"].index(pl["at"])]
+            pos = ("root-only" if len(pl["mods"]) == 1 else "first-module" if not earlier else
+                   "later-module/earlier-without-filtermap" if any(m not in pl["fmIn"] for m in earlier) else
+                   "later-module/earlier-all-with-filtermap")
+            if it["kind"] == "fn":
+                form = "fn"
+            else:
+                used = [x[0] != "unused" for x in (it["acc"], it["rej"])]
+                form = "both-sides" if all(used) else "accept-only" if used[0] else "reject-only"
+            key = "%s/%s%s" % (pos, form, "" if exp["ok"] else "/never-retrievable")
+            stats["mod_rows"][key] = stats["mod_rows"].get(key, 0) + 1
+            if "." in pl["at"]:
+                stats["mod_rows"]["nested-module"] = stats["mod_rows"].get("nested-module", 0) + 1
         if family == "ns":
             it = exp["item"]
             if it["kind"] == "fn":
@@ -742,7 +807,7 @@ def validate_events(path, events, ev, verd):
 def new_stats():
     return {"pairs": 0, "probes": 0, "called": 0, "impl_errs": {}, "reasons": {k: 0 for k in REASONS + ["ok"]},
             "rows_by_class": {}, "rows_by_kind": {}, "fm_sides": {}, "ok_sym": {}, "err_sym": {}, "families": {},
-            "helpers": 0, "helper_names": set(), "ns_rows": {}}
+            "helpers": 0, "helper_names": set(), "ns_rows": {}, "mod_rows": {}}
 
 
 RUST_SYMBOLS = ["bool", "u8", "u16", "u32", "u64", "i8", "i16", "i32", "i64", "f32", "f64", "char", "RotoString", "Asn",
@@ -776,6 +841,13 @@ def vacuity_guard(stats):
                     raise vlib.ToolError("no namesake row %s/%s/%s (vacuous)" % (where, pos, shape))
         if not stats["ns_rows"].get("%s/filtermap/bare" % where):
             raise vlib.ToolError("no namesake filtermap row for %s" % where)
+    for pos in ("root-only", "first-module", "later-module/earlier-without-filtermap",
+                "later-module/earlier-all-with-filtermap"):
+        for form in ("accept-only", "reject-only", "both-sides", "fn"):
+            if not stats["mod_rows"].get("%s/%s" % (pos, form)):
+                raise vlib.ToolError("no retrievable module-placement row %s/%s (vacuous)" % (pos, form))
+    if not stats["mod_rows"].get("nested-module"):
+        raise vlib.ToolError("no module-placement row in a nested module")
     for k in ("declared-as-record", "declared-as-enum", "control-handed-out"):
         if not stats["ns_rows"].get(k):
             raise vlib.ToolError("no namesake row %s (vacuous)" % k)
@@ -797,7 +869,7 @@ def run(tier):
                "the family's universe (handed-out set must equal TLC's set); distinct = distinct (family, item, name "
                "class); every row is non-trivial: it contains the complete accept/refuse decision for its universe")
     # TLC runs and probing of different families overlap (TLC: 2-3 workers each, at most 2 at a time)
-    with ThreadPoolExecutor(max_workers=2) as ex:
+    with ThreadPoolExecutor(max_workers=3) as ex:
         futs = [ex.submit(probe_family, f) for f in fams]
         for f in futs:
             account_family(f.result(), ev, verd, stats)
@@ -816,6 +888,7 @@ def run(tier):
     ev.extra["rows_by_item_kind"] = stats["rows_by_kind"]
     ev.extra["filtermap_side_forms"] = stats["fm_sides"]
     ev.extra["namesake_rows"] = stats["ns_rows"]
+    ev.extra["module_placement_rows"] = stats["mod_rows"]
     ev.extra["handed_out_signatures_mentioning"] = stats["ok_sym"]
     ev.extra["compiler_generated_helpers_probed"] = sorted(n for n in stats["helper_names"] if n.startswith("::"))[:12]
     ev.extra["trace_events"] = stats.get("trace_events", 0)
@@ -848,7 +921,7 @@ def replay(path):
     stats = new_stats()
     if "expected" in obj:
         exp = obj["expected"]
-        script, err = write_script("replay", [(exp["name"], exp["item"])])
+        script, err = write_script("replay", [(exp.get("decl", exp["name"]), exp["item"])])
         if err:
             print("script rejected:\n" + err)
             return 1
